@@ -8,9 +8,9 @@ git checkout -q -- . && git clean -fdq
 DEMO=$(python3 -c "import json;print(json.load(open('$OUT/meta.json'))['demo_path'])")
 CMD=$(python3 -c "import json;print(json.load(open('$OUT/meta.json'))['demo_cmd'])")
 cp "$OUT/demo_test.go" "$DEMO"
-echo "== demo WITHOUT change"; (eval "$CMD") > /tmp/sc.out 2>&1; echo "exit=$?"; tail -3 /tmp/sc.out
+echo "== demo WITHOUT change"; (eval "$CMD") > /tmp/sc.$$.out 2>&1; echo "exit=$?"; tail -3 /tmp/sc.$$.out
 git apply "$OUT/patch.diff" || { echo "PATCH DOES NOT APPLY"; exit 2; }
-echo "== demo WITH change"; (eval "$CMD") > /tmp/sc.out 2>&1; echo "exit=$?"; grep -E "^(--- FAIL|FAIL|ok)" /tmp/sc.out | head -5
+echo "== demo WITH change"; (eval "$CMD") > /tmp/sc.$$.out 2>&1; echo "exit=$?"; grep -E "^(--- FAIL|FAIL|ok)" /tmp/sc.$$.out | head -5
 rm -f "$DEMO"
 PKGS=$(git diff --name-only | xargs -n1 dirname | sort -u | sed 's#^#./#' | sed 's#/[a-z_]*$#/...#' | sort -u | tr '\n' ' ')
 echo "== existing tests of touched modules WITH change: $PKGS"
